@@ -88,7 +88,11 @@ def find_fn(src, name, impl=None):
     s = strip_comments_keep_len(src)
     region = (0, len(s))
     if impl:
-        m = re.search(r"\bimpl(?:<[^>{]*>)?\s+(?:[\w:<>, ']+\s+for\s+)?%s\b[^{;]*\{" % re.escape(impl), s)
+        if " for " in impl:
+            pat = r"\bimpl(?:<[^>{]*>)?\s+" + r"\s+".join(re.escape(w) for w in impl.split()) + r"\b[^{;]*\{"
+        else:
+            pat = r"\bimpl(?:<[^>{]*>)?\s+%s\b[^{;]*\{" % re.escape(impl)
+        m = re.search(pat, s)
         if not m:
             raise Fail("impl %s not found" % impl)
         region = (m.end() - 1, match_brace(s, m.end() - 1))
@@ -439,7 +443,9 @@ class Tr:
             return "(" + t + ")", ty
         if k == "cast":
             return self.ex(e[1], env, want if want != "word" else None) if e[2] in ("usize", "u128", "u64", "u32", "u16", "u8") else self.bad(e)
-        if k == "path" or k == "field" or k == "index" or (k == "un" and e[1] == "*"):
+        if k == "un" and e[1] == "*":
+            return self.ex(e[2], env, want)
+        if k == "path" or k == "field" or k == "index":
             n = norm(e)
             if k == "path" and len(e[1]) == 1 and e[1][0] in env:
                 return env[e[1][0]]
@@ -725,6 +731,11 @@ def span_expr(file, fn, impl, regex, lean_name, params, ret, spec):
     return dict(kind="expr", file=file, fn=fn, impl=impl, regex=regex, lean=lean_name, params=params, ret=ret, spec=spec)
 
 
+def span_custom(file, func):
+    """func(source_text) -> (lean_text, hashed_source_fragment); raise Fail to report a broken span"""
+    return dict(kind="custom", file=file, func=func)
+
+
 SPANS = {}
 
 
@@ -736,19 +747,25 @@ def load_span_files():
     """every tools/spans/*.py registers its spans (one file per crate group, to keep edits apart)"""
     import glob
     d = os.path.join(os.path.dirname(os.path.abspath(__file__)), "spans")
-    g = {"register": register, "span_fn": span_fn, "span_const": span_const, "span_expr": span_expr}
+    g = {"register": register, "span_fn": span_fn, "span_const": span_const, "span_expr": span_expr,
+         "span_custom": span_custom, "Fail": Fail, "re": re}
     for f in sorted(glob.glob(os.path.join(d, "*.py"))):
         exec(compile(open(f).read(), f, "exec"), dict(g))
 
 
 def translate_span(repo, sp):
     src = open(os.path.join(repo, sp["file"])).read()
+    if sp["kind"] == "custom":
+        return sp["func"](strip_comments_keep_len(src))
     if sp["kind"] == "const":
         e = find_const(src, sp["name"])
         t = Tr({})
         txt, _ = t.ex(P(lex(e)).expr(), {})
         return "def %s : Nat := %s" % (sp["lean"], txt), e
     sig, body = find_fn(src, sp["fn"], sp.get("impl"))
+    for rx in sp.get("spec", {}).get("require", []):
+        if not re.search(rx, body, re.S):
+            raise Fail("required pattern %r not found in fn %s" % (rx, sp["fn"]))
     if sp["kind"] == "expr":
         m = re.search(sp["regex"], body, re.S)
         if not m:
@@ -796,7 +813,7 @@ def main():
         try:
             lean, src = translate_span(a.repo, sp)
             h = hashlib.sha1(re.sub(r"\s+", " ", src).encode()).hexdigest()[:12]
-            chunks.append("/-- span `%s`: %s %s (source hash %s) -/\n%s\n" % (name, sp["file"], sp.get("fn") or sp.get("name"), h, lean))
+            chunks.append("/-- span `%s`: %s %s (source hash %s) -/\n%s\n" % (name, sp["file"], sp.get("fn") or sp.get("name") or "", h, lean))
             status[name] = {"ok": True, "hash": h}
         except Fail as e:
             chunks.append("-- span `%s` FAILED to translate: %s\n" % (name, str(e).replace("\n", " ")))
